@@ -81,10 +81,13 @@ type edge [2]int
 
 type model struct {
 	res   map[int]bool
-	edges map[edge]bool
+	edges map[edge]bool // relationships of type parent (the type the traversals follow)
+	other map[edge]bool // relationships of a second type: they count for acyclicity, not for traversals
 }
 
-func newModel() *model { return &model{res: map[int]bool{}, edges: map[edge]bool{}} }
+func newModel() *model {
+	return &model{res: map[int]bool{}, edges: map[edge]bool{}, other: map[edge]bool{}}
+}
 
 func (m *model) clone() *model {
 	c := newModel()
@@ -94,7 +97,31 @@ func (m *model) clone() *model {
 	for k := range m.edges {
 		c.edges[k] = true
 	}
+	for k := range m.other {
+		c.other[k] = true
+	}
 	return c
+}
+
+// kids: successors along relationships of either type (what the cycle check looks at).
+func (m *model) kids(a int) []int {
+	seen := map[int]bool{}
+	for e := range m.edges {
+		if e[0] == a {
+			seen[e[1]] = true
+		}
+	}
+	for e := range m.other {
+		if e[0] == a {
+			seen[e[1]] = true
+		}
+	}
+	var out []int
+	for k := range seen {
+		out = append(out, k)
+	}
+	sort.Ints(out)
+	return out
 }
 
 func (m *model) children(a int) []int {
@@ -131,7 +158,7 @@ func (m *model) reach(src, dst int) bool {
 			return false
 		}
 		seen[x] = true
-		for _, c := range m.children(x) {
+		for _, c := range m.kids(x) {
 			if dfs(c) {
 				return true
 			}
@@ -168,7 +195,7 @@ func (m *model) acyclic() bool {
 	var dfs func(int) bool
 	dfs = func(x int) bool {
 		col[x] = 1
-		for _, c := range m.children(x) {
+		for _, c := range m.kids(x) {
 			if col[c] == 1 {
 				return false
 			}
@@ -184,6 +211,11 @@ func (m *model) acyclic() bool {
 			return false
 		}
 	}
+	for e := range m.other {
+		if col[e[0]] == 0 && !dfs(e[0]) {
+			return false
+		}
+	}
 	return true
 }
 
@@ -191,6 +223,12 @@ func (m *model) deleteResource(a int) (incident int) {
 	for e := range m.edges {
 		if e[0] == a || e[1] == a {
 			delete(m.edges, e)
+			incident++
+		}
+	}
+	for e := range m.other {
+		if e[0] == a || e[1] == a {
+			delete(m.other, e)
 			incident++
 		}
 	}
@@ -332,6 +370,9 @@ func genScript(t *rapid.T) Script {
 		case "defrel":
 			op.Kind = "defrel"
 			op.A, op.B = genEdge(t, g, existing)
+			if rare(t, "other-type", 5) {
+				op.Kind = "defrelm"
+			}
 		case "defmany":
 			op.Kind = "defmany"
 			op.A = existing("a")
@@ -358,7 +399,15 @@ func genScript(t *rapid.T) Script {
 			}
 		case "delrel":
 			op.Kind = "delrel"
-			if el := g.cur.edgeList(); len(el) > 0 && !rare(t, "delrel-any", 5) {
+			if len(g.cur.other) > 0 && rare(t, "delrel-other-type", 4) {
+				var ol []edge
+				for e := range g.cur.other {
+					ol = append(ol, e)
+				}
+				sort.Slice(ol, func(i, j int) bool { return ol[i][0] < ol[j][0] || (ol[i][0] == ol[j][0] && ol[i][1] < ol[j][1]) })
+				e := rapid.SampledFrom(ol).Draw(t, "other-edge")
+				op.Kind, op.A, op.B = "delrelm", e[0], e[1]
+			} else if el := g.cur.edgeList(); len(el) > 0 && !rare(t, "delrel-any", 5) {
 				e := rapid.SampledFrom(el).Draw(t, "edge")
 				op.A, op.B = e[0], e[1]
 			} else {
@@ -511,12 +560,41 @@ func applyModel(m *model, op Op, rep *kit.Report) verdict {
 			return verdict{mustFail: true, why: "cycle"}
 		case m.reach(op.B, op.A):
 			class("defrel-long-cycle")
+			if len(m.other) > 0 {
+				only := &model{res: m.res, edges: m.edges, other: map[edge]bool{}}
+				if !only.reach(op.B, op.A) {
+					class("cycle-closed-through-a-relationship-of-another-type")
+				}
+			}
 			return verdict{mustFail: true, why: "cycle"}
 		default:
 			m.edges[e] = true
 			class("defrel-accepted")
 			return verdict{why: "acyclic"}
 		}
+	case "defrelm":
+		e := edge{op.A, op.B}
+		switch {
+		case m.other[e]:
+			class("defrel-other-type-existing-noop")
+			return verdict{why: "existing"}
+		case !m.res[op.A] || !m.res[op.B]:
+			return verdict{mustFail: true, why: "missing-endpoint"}
+		case op.A == op.B:
+			return verdict{mustFail: true, why: "self-loop"}
+		case m.reach(op.B, op.A):
+			class("defrel-other-type-cycle")
+			return verdict{mustFail: true, why: "cycle"}
+		default:
+			m.other[e] = true
+			class("defrel-other-type-accepted")
+			if m.edges[e] {
+				class("parallel-relationships-of-two-types")
+			}
+			return verdict{why: "acyclic"}
+		}
+	case "delrelm":
+		delete(m.other, edge{op.A, op.B})
 	case "defmany":
 		if len(op.Bs) == 0 {
 			class("defmany-empty")
@@ -603,6 +681,10 @@ func (s *sampleService) RetrieveResource(_ context.Context, key string, _ gorp.T
 
 const parentOf = ontology.RelationshipTypeParentOf
 
+// memberOf is a second relationship type (the ontology accepts any type string; core's own
+// services use several): the graph has to stay acyclic over relationships of all types.
+const memberOf = ontology.RelationshipType("member")
+
 type sut struct {
 	ctx   context.Context
 	db    *gorp.DB
@@ -640,13 +722,33 @@ func (s *sut) checkTables(step int, what string, v gorp.Tx, m *model) error {
 		return kit.Fail("scan-error", "step %d (%s): relationship table scan: %v", step, what, err)
 	}
 	got := map[edge]int{}
+	gotOther := map[edge]int{}
 	for _, r := range rels {
 		f, okF := s.index[r.From]
 		t, okT := s.index[r.To]
-		if !okF || !okT || r.Type != parentOf {
+		if !okF || !okT || (r.Type != parentOf && r.Type != memberOf) {
 			return kit.Fail("foreign-edge", "step %d (%s): relationship table holds %s which no operation defined", step, what, r.GorpKey())
 		}
+		if r.Type == memberOf {
+			gotOther[edge{f, t}]++
+			continue
+		}
 		got[edge{f, t}]++
+	}
+	for _, e := range sortedEdges(gotOther) {
+		switch {
+		case gotOther[e] > 1:
+			return kit.Fail("duplicate-edge", "step %d (%s): relationship %s-member->%s stored %d times", step, what, s.name(e[0]), s.name(e[1]), gotOther[e])
+		case !m.res[e[0]] || !m.res[e[1]]:
+			return kit.Fail("dangling-edge", "step %d (%s): relationship %s-member->%s survives although an endpoint does not exist (resources: %s)", step, what, s.name(e[0]), s.name(e[1]), s.fmtRes(m))
+		case !m.other[e]:
+			return kit.Fail("extra-edge", "step %d (%s): relationship table holds %s-member->%s, model edges: %s", step, what, s.name(e[0]), s.name(e[1]), s.fmtEdges(m))
+		}
+	}
+	for e := range m.other {
+		if gotOther[e] == 0 {
+			return kit.Fail("lost-edge", "step %d (%s): relationship %s-member->%s is gone from the table, model edges: %s", step, what, s.name(e[0]), s.name(e[1]), s.fmtEdges(m))
+		}
 	}
 	for e, c := range got {
 		if c > 1 {
@@ -711,6 +813,12 @@ func (s *sut) fmtEdges(m *model) string {
 	for _, e := range m.edgeList() {
 		p = append(p, s.name(e[0])+"->"+s.name(e[1]))
 	}
+	var o []string
+	for e := range m.other {
+		o = append(o, s.name(e[0])+"-member->"+s.name(e[1]))
+	}
+	sort.Strings(o)
+	p = append(p, o...)
 	return "[" + strings.Join(p, " ") + "]"
 }
 
@@ -992,6 +1100,10 @@ func execute(sc Script, rep *kit.Report) (ret error) {
 			err = w.DeleteManyResources(ctx, s.many(op.Bs))
 		case "defrel":
 			err = w.DefineRelationship(ctx, s.id(op.A), parentOf, s.id(op.B))
+		case "defrelm":
+			err = w.DefineRelationship(ctx, s.id(op.A), memberOf, s.id(op.B))
+		case "delrelm":
+			err = w.DeleteRelationship(ctx, s.id(op.A), memberOf, s.id(op.B))
 		case "defmany":
 			err = w.DefineFromOneToManyRelationships(ctx, s.id(op.A), parentOf, s.many(op.Bs))
 		case "delrel":
@@ -1016,7 +1128,7 @@ func execute(sc Script, rep *kit.Report) (ret error) {
 			return kit.Fail(sig, "step %d: %s returned nil but must be refused (%s); %s", step, what, v.why, state)
 		case !v.mustFail && err != nil:
 			sig := "op-error"
-			if op.Kind == "defrel" || op.Kind == "defmany" {
+			if op.Kind == "defrel" || op.Kind == "defmany" || op.Kind == "defrelm" {
 				sig = "refused-acyclic-edge"
 				if v.why == "existing" {
 					sig = "refused-existing-edge"
@@ -1085,7 +1197,7 @@ func (s *sut) describe(op Op) string {
 	switch op.Kind {
 	case "defres", "delres", "delout", "delin":
 		return fmt.Sprintf("%s(%s)", op.Kind, s.name(op.A))
-	case "defrel", "delrel":
+	case "defrel", "delrel", "defrelm", "delrelm":
 		return fmt.Sprintf("%s(%s -> %s)", op.Kind, s.name(op.A), s.name(op.B))
 	case "defmany":
 		return fmt.Sprintf("defmany(%s -> %s)", s.name(op.A), s.fmtList(op.Bs))
